@@ -43,11 +43,13 @@ def fname(i):
 
 
 # ---- the small exhaustive family: 2 touched paths x 3 texts, one file only on disk
-A = [H.build_text([("inc", "b.td"), ("raw", "class A : B;")]),
+ANON_A = "class AA { int y = 1; }\ndef : AA { int z = 2; }\ndef : AA { int w = 3; }"          # hover on z / w shows anonymous_N
+ANON_B = "class BB;\ndefset list<BB> SB = { def : BB; def named : BB; def : BB; }\nmulticlass MB { def X; }\ndefm : MB;"
+A = [H.build_text([("inc", "b.td"), ("raw", "class A : B;"), ("raw", ANON_A)]),
      H.build_text([("inc", "c.td"), ("raw", "class A : C;")]),      # same statement range, other target
      H.build_text([("raw", "class A;")])]
 B = [H.build_text([("raw", "class B;")]),
-     H.build_text([("inc", "c.td"), ("raw", "class B : C;")]),
+     H.build_text([("inc", "c.td"), ("raw", "class B : C;"), ("raw", ANON_B)]),
      H.build_text([("inc", "a.td"), ("raw", "class B;")])]
 SHARED = H.build_text([("raw", "class Shared;")])                  # the same text sent for two different documents
 OPS = [("a.td", t) for t in A + [SHARED]] + [("b.td", t) for t in B + [SHARED]]
@@ -75,6 +77,12 @@ def rand_text(rng, i, n):
             parts.append((rng.choice(FORMS), tgt))
     if rng.random() < 0.6:
         parts.append(("raw", "def d%d : C%d_%d;" % (i, rng.randrange(n), rng.randint(0, 2))))
+    if rng.random() < 0.35:      # generated names (anonymous_N): counters must restart with every analysis
+        parts.append(("raw", "class AN%d { int y = 1; }\ndef : AN%d { int z%d = 2; }" % (i, i, v)))
+    if rng.random() < 0.3:
+        parts.append(("raw", "class DS%d;\ndefset list<DS%d> S%d = { def : DS%d; def : DS%d; }" % (i, i, i, i, i)))
+    if rng.random() < 0.15:
+        parts.append(("raw", "multiclass MC%d { def X; }\ndefm : MC%d;" % (i, i)))
     if rng.random() < 0.1:
         parts.append(("synerr",))
     if rng.random() < 0.5:
@@ -154,7 +162,9 @@ def check(ctx, bindir, exe, cases):
                 fresh[key] = f
                 order.append(key)
             want.append((ci, k, key))
-    fres = dict(zip(order, H.run_harness(bindir, [fresh[k] for k in order], 4000)))
+    # "a freshly started analysis", literally: every fresh host in a NEW process, evaluating nothing but the
+    # real AnalysisHost (process-wide state of earlier analyses cannot leak into the reference)
+    fres = dict(zip(order, H.run_isolated(bindir, [fresh[k] for k in order], 4000)))
     viol, ties, stats = {}, [], {"comparisons": 0, "nontrivial": set(), "root_switch": 0, "set_change": 0, "map_change": 0,
                                  "fresh_hosts": len(order), "both_fail": 0}
 
@@ -186,10 +196,18 @@ def check(ctx, bindir, exe, cases):
         d = H.first_diff(a, b)
         if d is not None:
             key_, x, y = d
-            if isinstance(x, dict) and isinstance(y, dict):
+            where = []
+            while isinstance(x, dict) and isinstance(y, dict):
                 sub = H.first_diff(x, y)
-                if sub is not None:
-                    x, y = {sub[0]: sub[1]}, {sub[0]: sub[2]}
+                if sub is None:
+                    break
+                where.append(sub[0]); x, y = sub[1], sub[2]
+            if isinstance(x, list) and isinstance(y, list):      # first differing element
+                for u, v in zip(x + [None] * len(y), y + [None] * len(x)):
+                    if u != v:
+                        x, y = u, v
+                        break
+            x, y = {"/".join(where): x}, {"/".join(where): y}
             note("differs:" + key_, c, k, {"key": key_, "after_history": x, "fresh_host": y, "fresh_case": fresh[key]})
         if k > 0:
             p0, p1 = H.proj_inputs(r["impl"]["steps"][k - 1]), a
